@@ -249,17 +249,45 @@ class Program:
 
     # ------------------------------------------------------------------ lookup
     def fn(self, suffix, required=True):
-        """Find the unique function whose normalised path ends with `suffix`
-        (at a path-segment boundary)."""
+        """Find the unique function whose normalised path ends with `suffix` (at a path-segment boundary).
+        If there is none, a function of the same name that was *moved* to another module of the same crate is accepted when
+        it is unique (plain `crate::..::name` paths only): moving code between files does not disturb an anchor."""
         hits = [f for p, f in self.fns.items() if p == suffix or p.endswith("::" + suffix)
                 or (suffix.startswith("<") and p == suffix)]
         if len(hits) == 1:
             return hits[0]
         if not hits:
+            moved = self._moved(suffix)
+            if moved is not None:
+                return moved
             if required:
                 raise AnchorMissing("function `%s` not found" % suffix)
             return None
         raise AnchorMissing("function `%s` is ambiguous: %s" % (suffix, [h.path for h in hits]))
+
+    def _moved(self, suffix):
+        if suffix.startswith("<") or " as " in suffix or "::" not in suffix:
+            return None
+        segs = suffix.split("::")
+        name = segs[-1]
+        crate = segs[0] if segs[0] in self.crates or segs[0].replace("-", "_") in self.crates else None
+        # `Type::method` anchors keep their type segment
+        owner = segs[-2] if len(segs) >= 2 and segs[-2][:1].isupper() else None
+        cands = []
+        for f in self.by_name.get(name, []):
+            if f.derived or "::tests::" in f.path or f.path.startswith("<"):
+                continue
+            if crate and not f.path.startswith(crate + "::"):
+                continue
+            fs = f.path.split("::")
+            if owner and (len(fs) < 2 or fs[-2] != owner):
+                continue
+            if not owner and len(fs) >= 2 and fs[-2][:1].isupper():
+                continue
+            cands.append(f)
+        if len(cands) == 1 and (crate or owner):
+            return cands[0]
+        return None
 
     def fns_matching(self, pred):
         return [f for f in self.fns.values() if pred(f)]
